@@ -3,14 +3,16 @@
 #  1. the patch applies at /repo's HEAD and builds;  2. the demonstration passes without and fails with it
 #  (scratch worktree outside /repo and /verif);  3. the registered quick check is run against /repo with the
 #  patch applied (git apply ... ; git checkout -- .) and its verdict recorded in meta.json.
-# Usage: tools/validate_seed.sh c07 [extra check ids...]
+# Usage: [SEED_NAME=c07b SEED_SRC=/tmp/s3-c07] tools/validate_seed.sh c07 [extra check ids...]
 set -u
 export GOFLAGS=-mod=mod GOPROXY=off GOSUMDB=off GOTOOLCHAIN=local
 id=$1; shift
 extra="$@"
-src=/tmp/seed-$id
-wt=/tmp/vs-$id
-dst=/verif/seeded/$id
+# SEED_NAME: directory name under /verif/seeded (default: the check id); SEED_SRC: the sub-agent's worktree
+name=${SEED_NAME:-$id}
+src=${SEED_SRC:-/tmp/seed-$id}
+wt=/tmp/vs-$name
+dst=/verif/seeded/$name
 mkdir -p $dst
 if [ -f $src/SEED/patch.diff ]; then
   # first filing: import from the sub-agent's worktree
